@@ -21,6 +21,12 @@ CLAIMED = {
  "C11": ("model_checking", "s6 C11", "TLC explores the PPolyND life cycle with both lazy caches modelled (no stale read reachable, 2 broken twins rejected) and generates one script per abstract transition; replayed on the real class, every evaluation must equal the exact value of the latest data of that object; spline objects are rebuilt after evaluation and evaluated again."),
  "C20": ("model_checking", "s6 C20", "The sequence contract is model-checked over an integer lattice (broken twin rejected); recorded time sequences (incl. steps that nearly divide the interval), trajectory lengths, batch evaluations and factory objects are validated exactly on the logged bits."),
  "C17": ("model_checking", "s6 C17", "Positivity, strict monotonicity, C^2 smoothness at the switch point, the backward rule and the inverse law are TLC theorems on a rational lattice (broken twin rejected); recorded toTime/toTau/backward values on lattices that include adjacent doubles and subnormals are judged against the exact rational map."),
+ "C07": ("model_checking", "s6 C07", "OptMath!Grad (chain rule through time map, spatial map, spline adjoint and the K-step quadrature, written from the definitions) is checked by TLC against exact central differences of OptMath!Cost on a grid; on the real class all 256 flag settings x 3 orders with cycled N, dimension, map families, energy weight, steps and overloads are evaluated and every gradient component is validated against the exact gradient."),
+ "C08": ("model_checking", "s6 C08", "Recorded costs are validated against the exact time + waypoint + trapezoid + weighted-energy decomposition, and every sample handed to a recording running-cost functor (segment index, local/global time, p v a j s) against the exact minimiser; count and uniqueness of samples; the two-cost overload law is a TLC theorem."),
+ "C09": ("model_checking", "s6 C09", "Layout, round-trip and pinning laws are TLC theorems on a grid; the lazy layout cache is explored exhaustively against every setter/reader/copy history (4 broken twins rejected); all flag settings x orders x N 1..6 x dimensions x spatial maps are replayed (dimension, initial guess, decode of a marker vector, pinned bits, exposed spline) plus one script per transition of the reconfiguration model."),
+ "C15": ("model_checking", "s6 C15", "Ownership model (own/user map pointers, built-in workspace) explored exhaustively by TLC (NoDangling, NoSharedWorkspace; broken twins rejected); one script per transition replayed with stateful maps on optimizers in a poisoned arena; every evaluation of every live object is validated against the exact result for its own configuration; spline-object copies by bit identity."),
+ "C16": ("model_checking", "s6 C16", "Verdict coherence and rejection paths are model-checked (OptObj, PPolyObj); every single placement of a non-finite value, durations around the 1 ms threshold, size mismatches and valid/invalid sequences are replayed through both overloads and judged against Valid(inputs, order) evaluated exactly on the logged bits; PPolyND rejection kinds and at() bounds likewise."),
+ "C19": ("model_checking", "s6 C19", "The self-check procedure is a TLA+ state machine checked by TLC (restore after every component, final evaluation at x; broken twin rejected); recorded checkGradients results for correct and lying functors are validated: analytical vs the exact pipeline result for the claimed partials, numerical vs the exact true gradient, norms, verdict and workspace state."),
 }
 PENDING = {}
 checks = []
